@@ -178,10 +178,18 @@ func VPH_C18_optypes() {
 	vpSetClock(t0)
 	cfg := RateLimiterConfig{GlobalRequestsPerSecond: 3, PerIPRequestsPerSecond: 2, PerIPBurstSize: 2,
 		ReadLargeOpsPerSecond: 1, WriteLargeOpsPerSecond: 2, ReaddirOpsPerSecond: 3, MountOpsPerMinute: 30, CleanupInterval: time.Hour}
+	// a configured rate of zero is a rate: the type's burst is all that is ever admitted
+	zero := vpBool("zero-rates")
+	if zero {
+		cfg.ReadLargeOpsPerSecond, cfg.WriteLargeOpsPerSecond, cfg.ReaddirOpsPerSecond, cfg.MountOpsPerMinute = 0, 0, 0, 0
+	}
 	rl := NewRateLimiter(cfg)
 	sel := vpChoose("op", 0, 3)
 	op := []OperationType{OpTypeReadLarge, OpTypeWriteLarge, OpTypeReaddir, OpTypeMount}[sel]
 	rate := []float64{1, 2, 3, 0.5}[sel]
+	if zero {
+		rate = 0
+	}
 	burst := []float64{10, 5, 5, 2}[sel]
 	// drain most of the burst first so that the refill matters
 	pre := int(burst) - 1
